@@ -1,10 +1,12 @@
 """C06 — binary formats round-trip the data model (DESIGN.md §5 C06)."""
+import sys
 import vlib
 import wire
 import binfmt
 from wire import Obj, Tagged
 from checks import c07
 
+sys.setrecursionlimit(max(sys.getrecursionlimit(), 20000))      # the bson-encoder-model stream nests 1025 deep
 PROP = "C06"
 MODULES = ["JV.Props.C06"]
 HARNESS = "bin"
@@ -261,6 +263,87 @@ def gen_fmt_core_lines(rng, n, fmt):
     return ls
 
 
+def gen_bson_core_lines(rng, n):
+    """untagged values of the data-model core in BSON's domain (and just outside it): the real encoder's bytes must equal the Lean
+    encoder model's bytes, refusal for refusal. Roots: documents, arrays (written as a document keyed "0", "1", …), scalars (refused)."""
+    ls = []
+    def doc(v):
+        return v if isinstance(v, Obj) else Obj([(b"v", v)])
+    def add(v, kind="o"):
+        ls.append(enc_line("bson", kind, "-", wire.sort_keys(v) if kind == "j" else v))
+    for _ in range(n):
+        v = strip_all_tags(gen_value(rng, rng.randint(0, 3), "bson", []))
+        if not isinstance(v, Obj) and rng.random() < 0.85:
+            v = doc(v)                                     # the rest: array roots and scalar roots
+        add(v, "j" if rng.random() < 0.6 else "o")
+    # roots
+    for v in (Obj([]), [], [1, 2], [[]], [Obj([])], None, True, 0, b"text", ("b", b"\x01"), ("d", 0x3ff8000000000000),
+              Obj([(b"a", Obj([]))]), Obj([(b"a", [])]), Obj([(b"", None)]), Obj([(b"a", [[], [[]], [Obj([]), [1, [2, [3]]]]])])):
+        add(v)
+    # every integer edge (int32 / int64 boundary with both neighbours; 2^63 … 2^64-1 is refused by both sides), in a document and in an array
+    for i in INT_EDGES:
+        add(Obj([(b"k", i)]), "j")
+        add(Obj([(b"a", [i, Obj([(b"k", i)])])]))
+        add([i])
+    for _ in range(200):
+        bits = rng.choice([7, 8, 15, 16, 30, 31, 32, 33, 62, 63, 64])
+        i = rng.getrandbits(bits)
+        i = -i if rng.random() < 0.5 else i
+        add(Obj([(b"i", max(min(i, 2 ** 63 - 1), -2 ** 63))]), "j")
+    # arrays of 0 … 13, 99 … 101, 999 … 1001 elements: the names "0" … "11", "99", "100", "1000"; nested arrays restart at "0"
+    for m in list(range(0, 14)) + [99, 100, 101, 999, 1000, 1001]:
+        xs = [rng.choice([0, None, True, -1, b"", 255, 2 ** 31]) for _ in range(m)]
+        add(Obj([(b"a", xs)]))
+        add(xs)
+        if m <= 13:
+            add(Obj([(b"a", [list(xs), Obj([(b"b", list(xs))]), xs[:3]])]))
+    # text: every length edge, multi-byte UTF-8 (2, 3, 4 byte sequences), an embedded U+0000 in a VALUE (length-prefixed: allowed)
+    for m in LEN_EDGES:
+        add(Obj([(b"s", bytes(rng.choice(b"abcxyz") for _ in range(m)))]))
+        add(Obj([(b"b", ("b", bytes(rng.randrange(256) for _ in range(m))))]))
+        if m <= 256:
+            add(Obj([(b"k" * m, b"v" * m)]))
+        add(Obj([(b"%05x" % i, rng.choice([None, 1, b"v"])) for i in range(m)]), "o" if m <= 256 else "j")
+    for t in (b"\xc3\xa9", b"\xe2\x82\xac", b"\xf0\x9f\x98\x80", b"a\xc3\xa9b\xe2\x82\xacc\xf0\x9f\x98\x80", b"a\x00b", b"\x00", b"\xef\xbf\xbf", b"\xf4\x8f\xbf\xbf"):
+        add(Obj([(b"s", t)]))
+        if 0 not in t:
+            add(Obj([(t, t)]))                             # the same bytes as an element name
+        add([t, [t]])
+    # text that is not UTF-8 is refused by both sides
+    for t in (b"\xff", b"a\xc3", b"\xed\xa0\x80", b"\xc0\x80"):
+        add(Obj([(b"s", t)]))
+    # doubles travel as their 64 bits (no float32 shortcut in BSON), NaN payloads included
+    for b in F64 + [0x7ff8000000000001, 0xfff0000000000000, 0x8000000000000000, 1]:
+        add(Obj([(b"d", ("d", b))]), "j")
+    for _ in range(150):
+        add(Obj([(b"d", ("d", rng.getrandbits(64))), (b"a", [("d", rng.getrandbits(64))])]))
+    # nesting: max_nesting_depth (1024) and one more
+    for d in (3, 100, 1023, 1024, 1025):
+        v = 1
+        for _ in range(d):
+            v = [v]
+        add(v)
+        v = 1
+        for j in range(d):
+            v = Obj([(b"k", v)]) if j % 2 == 0 else [v]
+        add(doc(v))
+    return ls
+
+
+def bson_model_oracle(line, impl, model, ref=None):
+    """the round-trip oracle under the documented BSON mapping; a root array is written as (and comes back as) the document keyed by its indices"""
+    t = line.split()
+    v, _ = wire.parse(t, 5)
+    if isinstance(v, list):
+        v = Obj([(b"%d" % i, x) for i, x in enumerate(v)])
+        if t[3] == "j":
+            v = wire.sort_keys(v)                          # a `json` object keeps its members sorted: "0" "1" "10" "11" "2" …
+        line = enc_line("bson", t[3], t[4], v)
+    elif not isinstance(v, Obj) and impl.startswith("err"):
+        return None                                        # a scalar root is not a BSON document: refusing it is right
+    return oracle(line, impl, model, ref)
+
+
 def compare_bytes(line, io, mo):
     if mo == "err":
         return io.startswith("err")          # the model refuses exactly what the real encoder refuses
@@ -296,6 +379,29 @@ def in_domain(fmt, v):
             return all(in_domain(fmt, x) for _, x in v.members)
         if isinstance(v, Tagged):
             return in_domain(fmt, v.value)
+    if fmt == "bson":
+        return bson_in_domain(v, 0)
+    return True
+
+
+def bson_in_domain(v, depth):
+    """BSON has no unsigned 64-bit integer either; text must be UTF-8; the encoder's default max_nesting_depth is 1024"""
+    if isinstance(v, bool) or v is None:
+        return True
+    if isinstance(v, int):
+        return v < 2 ** 63
+    if isinstance(v, bytes):
+        try:
+            v.decode("utf-8")
+            return True
+        except UnicodeDecodeError:
+            return False
+    if isinstance(v, list):
+        return depth < 1024 and all(bson_in_domain(x, depth + 1) for x in v)
+    if isinstance(v, Obj):
+        return depth < 1024 and all(bson_in_domain(x, depth + 1) for _, x in v.members)
+    if isinstance(v, Tagged):
+        return bson_in_domain(v.value, depth)
     return True
 
 
@@ -380,6 +486,9 @@ def streams(ctx, rng, scale):
     rngu = vlib.rng_for(ctx.seed, "c06/ubjson-model")
     lub = gen_fmt_core_lines(rngu, 1000 * scale, "ubjson")
     ctx.correspond("ubjson-encoder-model", HARNESS, lub, oracle, nontrivial, compare=compare_bytes, model_lines=[model_line(l) for l in lub])
+    rngb = vlib.rng_for(ctx.seed, "c06/bson-model")
+    lbs = gen_bson_core_lines(rngb, 1000 * scale)
+    ctx.correspond("bson-encoder-model", HARNESS, lbs, bson_model_oracle, nontrivial, compare=compare_bytes, model_lines=[model_line(l) for l in lbs])
     lbf = gen_bigfloat_lines(rng, 400 * scale)
     ctx.correspond("cbor-bigfloat-model", HARNESS, lbf, bigfloat_oracle, lambda l, i: l if len(l) > 60 else None, compare=compare_bigfloat,
                    model_lines=[bigfloat_model_line(l) for l in lbf])
